@@ -356,6 +356,8 @@ def rand_shader(rng, n_fn=(0, 4), n_entry=(1, 3), n_res=(1, 6), depth=2, push=0.
         S["globals"].append({"name": "pv", "space": "private", "ty": rand_leaf(rng)})
     if rng.random() < push:
         S["globals"].append({"name": "pc", "space": "push", "ty": rng.choice([rand_leaf(rng)] + ([{"k": "struct", "name": S["structs"][0]["name"]}] if S["structs"] else []))})
+        if rng.random() < 0.15:
+            S["globals"].append({"name": "pc_zz_unused", "space": "push", "ty": {"k": "vec", "n": 4, "s": "f32"}})
     rng.shuffle(S["globals"])
     nf = rng.randint(*n_fn)
     for i in range(nf):
